@@ -867,3 +867,64 @@ func (P *Program) GuardsWithin(ins ssa.Instruction, top *ssa.Function) []Lit {
 	}
 	return dedupLits(out)
 }
+
+// ValueCase: value v takes (terminal) value Val when the literals Guards hold (those on the way from the
+// alternatives' origins to v; the guards of v's own block are not included).
+type ValueCase struct {
+	Val    ssa.Value
+	Guards []Lit
+}
+
+// ValueCases splits v into its alternatives through phis (edge guards) and through product helpers that compute
+// it (guards of each return statement, read in the calling context of that call).
+func (P *Program) ValueCases(v ssa.Value, depth int) []ValueCase {
+	if depth > 6 {
+		return []ValueCase{{Val: v}}
+	}
+	with := func(cs []ValueCase, g []Lit) []ValueCase {
+		var out []ValueCase
+		for _, c := range cs {
+			out = append(out, ValueCase{c.Val, dedupLits(append(append([]Lit{}, c.Guards...), g...))})
+		}
+		return out
+	}
+	helper := func(call *ssa.Call, k int) []ValueCase {
+		callee := call.Call.StaticCallee()
+		if callee == nil || !P.IsProductFunc(callee) || len(callee.Blocks) == 0 || P.isAnchor(callee) || P.inlineBusy[callee] {
+			return nil
+		}
+		if P.inlineBusy == nil {
+			P.inlineBusy = map[*ssa.Function]bool{}
+		}
+		P.inlineBusy[callee] = true
+		defer delete(P.inlineBusy, callee)
+		var out []ValueCase
+		P.PinnedAll(map[*ssa.Function]ssa.CallInstruction{callee: call}, func() {
+			allInstrs(callee, func(b *ssa.BasicBlock, ins ssa.Instruction) {
+				if r, ok := ins.(*ssa.Return); ok && k < len(r.Results) {
+					out = append(out, with(P.ValueCases(r.Results[k], depth+1), P.BlockGuards(b))...)
+				}
+			})
+		})
+		return out
+	}
+	switch x := v.(type) {
+	case *ssa.Phi:
+		var out []ValueCase
+		for i, e := range x.Edges {
+			out = append(out, with(P.ValueCases(e, depth+1), P.EdgeGuards(x.Block().Preds[i], x.Block()))...)
+		}
+		return out
+	case *ssa.Call:
+		if cs := helper(x, 0); cs != nil {
+			return cs
+		}
+	case *ssa.Extract:
+		if call, ok := x.Tuple.(*ssa.Call); ok {
+			if cs := helper(call, x.Index); cs != nil {
+				return cs
+			}
+		}
+	}
+	return []ValueCase{{Val: v}}
+}
